@@ -1,4 +1,6 @@
+pub mod c20;
 pub mod c24;
+pub mod c25;
 pub mod c27;
 pub mod c28;
 pub mod c29;
@@ -8,7 +10,9 @@ use crate::core::CheckDef;
 
 pub fn lookup(id: &str) -> Option<CheckDef> {
     Some(match id {
+        "C20" => c20::def(),
         "C24" => c24::def(),
+        "C25" => c25::def(),
         "C27" => c27::def(),
         "C28" => c28::def(),
         "C29" => c29::def(),
@@ -17,4 +21,4 @@ pub fn lookup(id: &str) -> Option<CheckDef> {
     })
 }
 
-pub const ALL: &[&str] = &["C24", "C27", "C28", "C29", "C41"];
+pub const ALL: &[&str] = &["C20", "C24", "C25", "C27", "C28", "C29", "C41"];
